@@ -10,3 +10,6 @@ import Signac.Properties.C10
 import Signac.Properties.C18
 import Signac.Properties.C19
 import Signac.Properties.C20
+import Signac.Workspace
+import Signac.Properties.C03
+import Signac.Properties.C04
